@@ -5,14 +5,22 @@ package harness
 import (
 	"fmt"
 	"math/big"
+	"sort"
 	"testing"
 
+	"cosmossdk.io/log"
 	sdkmath "cosmossdk.io/math"
+	storetypes "cosmossdk.io/store/types"
 	sdk "github.com/cosmos/cosmos-sdk/types"
 	authtypes "github.com/cosmos/cosmos-sdk/x/auth/types"
+	banktypes "github.com/cosmos/cosmos-sdk/x/bank/types"
 
+	"github.com/provenance-io/provenance/internal/antewrapper"
 	"github.com/provenance-io/provenance/internal/pioconfig"
+	attributetypes "github.com/provenance-io/provenance/x/attribute/types"
 	"github.com/provenance-io/provenance/x/exchange"
+	exchangekeeper "github.com/provenance-io/provenance/x/exchange/keeper"
+	nametypes "github.com/provenance-io/provenance/x/name/types"
 	markertypes "github.com/provenance-io/provenance/x/marker/types"
 	msgfeestypes "github.com/provenance-io/provenance/x/msgfees/types"
 )
@@ -460,6 +468,310 @@ func TestC19(t *testing.T) {
 			w.Add(term, desc{"fn": "MsgFeesDistribution.Increase", "ops": opsDesc})
 			w.Count("fee_distribution_sequences")
 			w.Nontrivial("d/" + term)
+		}
+	}
+	// --- ratio fee options quoted by the OrderFeeCalc query ---
+	// Markets whose ratio tables use price denoms that are prefixes of one another; the denom
+	// numbers are the positions in this byte-ordered list, so number order = store order.
+	{
+		denoms := []string{"fig", "figs", "pea", "peach", "peachy", "plum", "plums"}
+		qs := exchangekeeper.NewQueryServer(app.ExchangeKeeper)
+		small := func() *big.Int {
+			a := randAmount(r, pool)
+			if a.BitLen() > 100 {
+				a.Rsh(a, uint(a.BitLen()-100+r.Intn(60)))
+			}
+			if a.Sign() == 0 {
+				a.SetInt64(1)
+			}
+			return a
+		}
+		nq := scale(250, 8000)
+		for i := 0; i < nq; i++ {
+			ctx, _ := baseCtx.CacheContext()
+			type rt struct {
+				pd, fd int
+				rp, rf *big.Int
+			}
+			var buyer, seller []rt
+			seen := map[[2]int]bool{}
+			pds := r.Perm(len(denoms))[:1+r.Intn(4)]
+			if r.Intn(12) != 0 {
+				for _, pd := range pds {
+					nf := 1 + r.Intn(3)
+					for _, fd := range r.Perm(len(denoms))[:nf] {
+						if seen[[2]int{pd, fd}] {
+							continue
+						}
+						seen[[2]int{pd, fd}] = true
+						buyer = append(buyer, rt{pd, fd, small(), small()})
+					}
+				}
+			}
+			if r.Intn(6) != 0 {
+				for _, pd := range r.Perm(len(denoms))[:1+r.Intn(3)] {
+					rp := small()
+					rf := new(big.Int).Rsh(rp, uint(r.Intn(12)))
+					seller = append(seller, rt{pd, pd, rp, rf})
+				}
+			}
+			less := func(l []rt) func(a, b int) bool {
+				return func(a, b int) bool {
+					if l[a].pd != l[b].pd {
+						return l[a].pd < l[b].pd
+					}
+					return l[a].fd < l[b].fd
+				}
+			}
+			sort.Slice(buyer, less(buyer))
+			sort.Slice(seller, less(seller))
+			toRatios := func(l []rt) []exchange.FeeRatio {
+				var rv []exchange.FeeRatio
+				for _, x := range l {
+					rv = append(rv, exchange.FeeRatio{Price: sdk.Coin{Denom: denoms[x.pd], Amount: sdkmath.NewIntFromBigInt(x.rp)},
+						Fee: sdk.Coin{Denom: denoms[x.fd], Amount: sdkmath.NewIntFromBigInt(x.rf)}})
+				}
+				return rv
+			}
+			coqRatios := func(l []rt) string {
+				var it []string
+				for _, x := range l {
+					it = append(it, fmt.Sprintf("{| r_pd := %d%%N; r_fd := %d%%N; r_p := %s; r_f := %s |}", x.pd, x.fd, zBig(x.rp), zBig(x.rf)))
+				}
+				return coqList(it)
+			}
+			marketID, err := app.ExchangeKeeper.CreateMarket(ctx, exchange.Market{
+				MarketDetails:             exchange.MarketDetails{Name: "c19 quotes"},
+				FeeBuyerSettlementRatios:  toRatios(buyer),
+				FeeSellerSettlementRatios: toRatios(seller),
+			})
+			if err != nil {
+				t.Fatalf("create quote market: %v", err)
+			}
+			for probe := 0; probe < 3; probe++ {
+				pd := r.Intn(len(denoms))
+				if r.Intn(3) != 0 && len(buyer) > 0 {
+					pd = buyer[r.Intn(len(buyer))].pd
+				}
+				p := small()
+				var tbl []rt
+				tbl = append(tbl, buyer...)
+				tbl = append(tbl, seller...)
+				if r.Intn(2) == 0 && len(tbl) > 0 {
+					x := tbl[r.Intn(len(tbl))]
+					if r.Intn(2) == 0 {
+						pd = x.pd
+					}
+					p.Mul(x.rp, big.NewInt(r.Int63n(100000)))
+					p.Add(p, big.NewInt(int64(r.Intn(3)-1)))
+					if p.Sign() < 0 {
+						p.SetInt64(0)
+					}
+				}
+				price := sdk.Coin{Denom: denoms[pd], Amount: sdkmath.NewIntFromBigInt(p)}
+				// bid
+				var bresp *exchange.QueryOrderFeeCalcResponse
+				berr := try(func() error {
+					var e error
+					bresp, e = qs.OrderFeeCalc(ctx, &exchange.QueryOrderFeeCalcRequest{BidOrder: &exchange.BidOrder{MarketId: marketID,
+						Buyer: addrN(1).String(), Assets: sdk.NewInt64Coin("thing", 1), Price: price}})
+					return e
+				})
+				bobs := "None"
+				if berr == nil {
+					var it []string
+					for _, c := range bresp.SettlementRatioFeeOptions {
+						id := -1
+						for k, d := range denoms {
+							if d == c.Denom {
+								id = k
+							}
+						}
+						if id < 0 {
+							id = 999
+						}
+						it = append(it, fmt.Sprintf("(%d%%N, %s)", id, zInt(c.Amount)))
+					}
+					bobs = "(Some " + coqList(it) + ")"
+				}
+				term := fmt.Sprintf("CBuyerOpts %s %d%%N %s %s", coqRatios(buyer), pd, zBig(p), bobs)
+				w.Add(term, desc{"fn": "OrderFeeCalc (bid)", "buyer_ratios": fmt.Sprint(toRatios(buyer)), "price": price.String(), "ok": berr == nil})
+				w.Count("order_fee_calc_bid")
+				if berr != nil {
+					w.Count("order_fee_calc_bid_failed")
+				} else if len(bresp.SettlementRatioFeeOptions) > 0 {
+					w.Nontrivial("bo/" + term)
+					if len(bresp.SettlementRatioFeeOptions) > 1 {
+						w.Count("order_fee_calc_bid_several_options")
+					}
+				}
+				// ask
+				if len(seller) > 0 && r.Intn(3) != 0 {
+					pd = seller[r.Intn(len(seller))].pd
+					price = sdk.Coin{Denom: denoms[pd], Amount: price.Amount}
+				}
+				var aresp *exchange.QueryOrderFeeCalcResponse
+				aerr := try(func() error {
+					var e error
+					aresp, e = qs.OrderFeeCalc(ctx, &exchange.QueryOrderFeeCalcRequest{AskOrder: &exchange.AskOrder{MarketId: marketID,
+						Seller: addrN(1).String(), Assets: sdk.NewInt64Coin("thing", 1), Price: price}})
+					return e
+				})
+				aobs := "None"
+				if aerr == nil {
+					switch len(aresp.SettlementRatioFeeOptions) {
+					case 0:
+						aobs = "(Some None)"
+					case 1:
+						c := aresp.SettlementRatioFeeOptions[0]
+						if c.Denom != price.Denom {
+							aobs = "(Some (Some (-1)))"
+						} else {
+							aobs = "(Some (Some " + zInt(c.Amount) + "))"
+						}
+					default:
+						aobs = "(Some (Some (-2)))"
+					}
+				}
+				term = fmt.Sprintf("CSellerFee %s %d%%N %s %s", coqRatios(seller), pd, zBig(p), aobs)
+				w.Add(term, desc{"fn": "OrderFeeCalc (ask)", "seller_ratios": fmt.Sprint(toRatios(seller)), "price": price.String(), "ok": aerr == nil})
+				w.Count("order_fee_calc_ask")
+				if aerr != nil {
+					w.Count("order_fee_calc_ask_failed")
+				} else if len(aresp.SettlementRatioFeeOptions) > 0 {
+					w.Nontrivial("ao/" + term)
+				}
+			}
+		}
+	}
+
+	// --- the fee meter of one transaction: message fees of several message types, some naming the
+	// same recipient, consumed the way the message router does and paid out by DeductFeesDistributions ---
+	{
+		msgs := []sdk.Msg{&banktypes.MsgSend{}, &banktypes.MsgMultiSend{}, &nametypes.MsgBindNameRequest{}, &attributetypes.MsgAddAttributeRequest{}}
+		nm := scale(150, 5000)
+		for i := 0; i < nm; i++ {
+			ctx, _ := baseCtx.CacheContext()
+			nrec := 1 + r.Intn(3)
+			recs := make([]sdk.AccAddress, nrec)
+			for j := range recs {
+				recs[j] = addrN(60 + j)
+			}
+			type tf struct {
+				amt  *big.Int
+				bips uint32
+				rid  int
+			}
+			fees := make([]*tf, len(msgs))
+			for k, m := range msgs {
+				if r.Intn(5) == 0 {
+					continue
+				}
+				amt := randAmount(r, pool)
+				if amt.BitLen() > 230 {
+					amt.Rsh(amt, uint(amt.BitLen()-230))
+				}
+				if r.Intn(10) == 0 {
+					amt.SetInt64(0)
+				}
+				bips := uint32(r.Intn(10001))
+				if r.Intn(4) == 0 {
+					bips = []uint32{0, 1, 5000, 9999, 10000}[r.Intn(5)]
+				}
+				rid := -1
+				recip := ""
+				if r.Intn(5) != 0 {
+					rid = r.Intn(nrec)
+					if r.Intn(2) == 0 {
+						rid = 0 // several message types paying one recipient
+					}
+					recip = recs[rid].String()
+				}
+				fees[k] = &tf{amt, bips, rid}
+				if amt.Sign() > 0 {
+					if err := app.MsgFeesKeeper.SetMsgFee(ctx, msgfeestypes.NewMsgFee(sdk.MsgTypeURL(m), sdk.Coin{Denom: "feecoin", Amount: sdkmath.NewIntFromBigInt(amt)}, recip, bips)); err != nil {
+						t.Fatalf("SetMsgFee: %v", err)
+					}
+				}
+			}
+			meter := antewrapper.NewFeeGasMeterWrapper(log.NewNopLogger(), storetypes.NewGasMeter(1<<40), false).(*antewrapper.FeeGasMeter)
+			ntx := 1 + r.Intn(6)
+			var ops []string
+			var opsDesc []map[string]any
+			for k := 0; k < ntx; k++ {
+				ty := r.Intn(len(msgs))
+				feeDist, err := app.MsgFeesKeeper.CalculateAdditionalFeesToBePaid(ctx, msgs[ty])
+				if err != nil {
+					t.Fatalf("CalculateAdditionalFeesToBePaid: %v", err)
+				}
+				// as internal/handlers/msg_service_router.go does after its sufficiency check
+				if !feeDist.TotalAdditionalFees.IsZero() {
+					url := sdk.MsgTypeURL(msgs[ty])
+					if feeDist.AdditionalModuleFees != nil {
+						meter.ConsumeFee(feeDist.AdditionalModuleFees, url, "")
+					}
+					var keys []string
+					for rk := range feeDist.RecipientDistributions {
+						keys = append(keys, rk)
+					}
+					sort.Strings(keys)
+					for _, rk := range keys {
+						meter.ConsumeFee(feeDist.RecipientDistributions[rk], url, rk)
+					}
+				}
+				f := fees[ty]
+				if f == nil {
+					f = &tf{big.NewInt(0), 0, -1}
+				}
+				ro := "None"
+				if f.rid >= 0 {
+					ro = fmt.Sprintf("(Some %d%%N)", f.rid)
+				}
+				ops = append(ops, fmt.Sprintf("(%d%%N, %s, %s, %s)", ty, zBig(f.amt), zI64(int64(f.bips)), ro))
+				opsDesc = append(opsDesc, map[string]any{"msg_type": sdk.MsgTypeURL(msgs[ty]), "fee": f.amt.String(), "bips": f.bips, "recipient": f.rid})
+			}
+			total := meter.FeeConsumed()
+			payer := addrN(70)
+			ensureAccount(app, ctx, payer)
+			if !total.IsZero() {
+				fund(t, app, ctx, payer, total)
+			}
+			collector := app.AccountKeeper.GetModuleAddress(authtypes.FeeCollectorName)
+			before := make([]sdkmath.Int, nrec)
+			for j := range recs {
+				before[j] = app.BankKeeper.GetBalance(ctx, recs[j], "feecoin").Amount
+			}
+			cBefore := app.BankKeeper.GetBalance(ctx, collector, "feecoin").Amount
+			derr := try(func() error {
+				return app.MsgFeesKeeper.DeductFeesDistributions(app.BankKeeper, ctx, app.AccountKeeper.GetAccount(ctx, payer), total, meter.FeeConsumedDistributions())
+			})
+			if derr != nil {
+				t.Fatalf("DeductFeesDistributions: %v", derr)
+			}
+			var recAmts []string
+			for j := range recs {
+				recAmts = append(recAmts, zInt(app.BankKeeper.GetBalance(ctx, recs[j], "feecoin").Amount.Sub(before[j])))
+			}
+			cDelta := app.BankKeeper.GetBalance(ctx, collector, "feecoin").Amount.Sub(cBefore)
+			term := "CMeter " + coqList(ops) + " " + fmt.Sprintf("%d%%N", nrec) + " (" + zInt(total.AmountOf("feecoin")) + ", " + zInt(cDelta) + ", " + coqList(recAmts) + ")"
+			w.Add(term, desc{"fn": "FeeGasMeter.ConsumeFee / FeeConsumedDistributions / DeductFeesDistributions", "messages": opsDesc})
+			w.Count("tx_fee_meter_transactions")
+			same := map[int]map[int]bool{}
+			for k, f := range fees {
+				if f != nil && f.rid >= 0 && f.amt.Sign() > 0 {
+					if same[f.rid] == nil {
+						same[f.rid] = map[int]bool{}
+					}
+					same[f.rid][k] = true
+				}
+			}
+			for _, m := range same {
+				if len(m) > 1 {
+					w.Count("tx_fee_meter_recipient_named_by_several_message_types")
+					break
+				}
+			}
+			w.Nontrivial("m/" + term)
 		}
 	}
 	w.Flush(t)
